@@ -44,13 +44,13 @@ AUDIT = {
         'm = pattern length <= isize::MAX',
     'bom::BOM::new|index|index(x0,Sub(Add(1,x1).0,1).0)<std::vec::Vec<std::option::Option<usize>>>':
         'suff has m + 1 entries and i - 1 = j < m',
-    'bom::BOM::new|index|index(x0,(x1 as Some).0)<std::vec::Vec<vec_map::VecMap<usize>>>':
+    'bom::BOM::new|index|index(x0,val(x1))<std::vec::Vec<vec_map::VecMap<usize>>>':
         'k_ is a suffix-link state < i - 1 + 1 = number of tables pushed so far (oracle construction invariant)',
-    'bom::BOM::new|index|index_mut(x0,(x1 as Some).0)<std::vec::Vec<vec_map::VecMap<usize>>>':
+    'bom::BOM::new|index|index_mut(x0,val(x1))<std::vec::Vec<vec_map::VecMap<usize>>>':
         'same state as the preceding contains_key test',
-    'bom::BOM::new|index|index(x0,(x1 as Some).0)<std::vec::Vec<std::option::Option<usize>>>':
+    'bom::BOM::new|index|index(x0,val(x1))<std::vec::Vec<std::option::Option<usize>>>':
         'k_ < i <= m and suff has m + 1 entries',
-    'bom::BOM::new|unwrap|unwrap(VecMap::get(Index<I>>::index(x0,(x1 as Some).0),Borrow::borrow(x2)))<&usize>':
+    'bom::BOM::new|unwrap|unwrap(VecMap::get(Index<I>>::index(x0,val(x1)),Borrow::borrow(x2)))<&usize>':
         'the loop left through `break` exactly when table[k].contains_key(a)',
     'bom::BOM::new|index|index_mut(x0,Add(1,x1).0)<std::vec::Vec<std::option::Option<usize>>>':
         'i = j + 1 <= m, suff has m + 1 entries',
